@@ -168,11 +168,16 @@ func (t *TokenNode) End() token.Position {
 func (a *AST) Format(w io.Writer) {
 	fw := NewWriter(w)
 	defer fw.Flush()
-	for idx, e := range a.Stmts {
-		if e.Format() == NilIndent {
-			continue
+	// statements that format to nothing are not written,
+	// the layout is decided among the written ones.
+	var stmts []Stmt
+	for _, e := range a.Stmts {
+		if e.Format() != NilIndent {
+			stmts = append(stmts, e)
 		}
+	}
 
+	for idx, e := range stmts {
 		fw.Write(withNode(e))
 		fw.NewLine()
 		switch e.(type) {
@@ -181,8 +186,8 @@ func (a *AST) Format(w io.Writer) {
 		case *ImportGroupStmt:
 			fw.NewLine()
 		case *ImportLiteralStmt:
-			if idx < len(a.Stmts)-1 {
-				_, ok := a.Stmts[idx+1].(*ImportLiteralStmt)
+			if idx < len(stmts)-1 {
+				_, ok := stmts[idx+1].(*ImportLiteralStmt)
 				if !ok {
 					fw.NewLine()
 				}
